@@ -30,7 +30,7 @@ from oracledefs import applier as _ap
 # the last sequence a replica reports (GetLastAppliedSequence, acknowledgements) never decreases: the applier programs of C13
 APPLIER_C08 = Comp('applier', n_quick=500, n_thorough=8000, oracle=_ap.applier_monotone_oracle, nontrivial=_ap.applier_nontrivial, stats=_ap.applier_stats, chunk_min=50, timeout=900)
 WALRET = Comp('walret', n_quick=200, n_thorough=6000, oracle=_wr.walret_oracle, nontrivial=_wr.walret_nontrivial, stats=_wr.walret_stats)
-reg(Prop('C08', 'Kevo.Props.C08', facts=['facts:storage.*', 'facts:wal.AppendBatch.nextSequence', 'facts:locks.rotateWAL.seqHandover'], components=[ENGINE, CRASH, SEQROT, WALRET, APPLIER_C08], fact_tags=['storage', 'memtable', 'wal'],
+reg(Prop('C08', 'Kevo.Props.C08', facts=['facts:storage.*', 'facts:wal.AppendBatch.nextSequence', 'facts:locks.rotateWAL.seqHandover', 'facts:retention.*'], components=[ENGINE, CRASH, SEQROT, WALRET, APPLIER_C08], fact_tags=['storage', 'memtable', 'wal'],
          rule=_ENGINE_RULE + ' Plus component crash: after a kill at every instrumentation site the recovered last sequence must be the number of the '
               'last recovered write and later writes continue above it. Plus implementation-only component seqrot (scenario kind of component lin, see C06): '
               '1-4 writers at full speed against back-to-back FlushImMemTables (about 100 log rotations per second); the replayed log directory must '
